@@ -3,7 +3,7 @@ import os
 from vf.core import *
 ROOTS = ['vf_ctx_init', 'vf_reader_init', 'vf_str_ctor', 'vf_max_msg_len', 'vf_max_fld_len', 'vf_bg_sz', 'vf_read']
 FUN = ['FIX8::FIXReader::read(f8String&)', 'FIX8::FIXReader::sockRead(char*,size_t)', 'FIX8::FIXReader::set_preamble_sz()',
-       'FIX8::MessageBase::extract_element(const char*,unsigned,char*,char*)', 'FIX8::fast_atoi<unsigned>',
+       'FIX8::MessageBase::extract_element(const char*,unsigned,char*,char*[,capacities])', 'FIX8::fast_atoi<unsigned>',
        'std::string header code instantiated in runtime/connection.cpp (_M_construct<const char*>, basic_string(const char*))']
 STUBS = ['Poco::Net::StreamSocket::receiveBytes := models/poco_sock.c (returns an arbitrary 1..min(n,available) next bytes of the symbolic stream, 0 at stream end; no EAGAIN/negative returns)',
          'Session::get_ctx := the harness context object (only _beginStr = "FIX.4.2" is read)', 'Session::update_received := counting witness',
@@ -13,6 +13,7 @@ RD = '_ZN4FIX89FIXReader4readERNSt7__cxx1112basic_stringIcSt11char_traitsIcESaIc
 SR = '_ZN4FIX89FIXReader8sockReadEPcm'
 RB = 'x__ZN4Poco3Net12StreamSocket12receiveBytesEPvii'
 EE = '_ZN4FIX811MessageBase15extract_elementEPKcjPcS3_'
+EE2 = '_ZN4FIX811MessageBase15extract_elementEPKcjPcS3_jj'     # capacity-aware signature (after the C03 repair); both are listed, CBMC ignores the absent one
 AT = '_ZN4FIX89fast_atoiIjEET_PKcc'
 CMP = 'x__ZNKSt7__cxx1112basic_stringIcSt11char_traitsIcESaIcEE7compareEPKc'
 SCALE = 'scaled build: _max_msg_len=96 (real 8192), FIX8_MAX_FLD_LENGTH=24 (real 2048), tag buffer 32 (unscaled); BeginString FIX.4.2'
@@ -22,17 +23,18 @@ def build(ctx):
     return ctx.translate(shim, ROOTS, 'c15.c', stubfiles=['common.stubs', 'c15.stubs'], models=['cxx.c', 'stubs.c', 'poco_sock.c'])
 
 def us(mainb, digits, sock, chunk, ee, copy, strlen=97):
-    return ['main.%d:%d' % (i, mainb) for i in range(0, 10)] + [RD + '.0:%d' % digits, RD + '.1:%d' % digits, RD + '.2:%d' % digits, SR + '.0:%d' % sock, RB + '.0:%d' % chunk, EE + '.0:%d' % ee,
+    return ['main.%d:%d' % (i, mainb) for i in range(0, 10)] + [RD + '.0:%d' % digits, RD + '.1:%d' % digits, RD + '.2:%d' % digits, SR + '.0:%d' % sock, RB + '.0:%d' % chunk, EE + '.0:%d' % ee, EE2 + '.0:%d' % ee,
             AT + '.0:%d' % digits, CMP + '.0:9', 'vf_copy.0:%d' % copy, 'x_strlen.0:%d' % max(strlen, 28)]   # (strlen also runs over the 25-character literal of PeerResetConnection)
 
 def valid(ctx, name, m, dig, minb, maxb, split, tier, timeout):
+    """split: True = one split point per request, 2 = two split points, False = every chunking"""
     stream = m * (14 + dig + maxb + 7); chunk = max(13, maxb)
-    defs = ['M=%d' % m, 'DIG=%d' % dig, 'MINBODY=%d' % minb, 'MAXBODY=%d' % maxb, 'STREAM_MAX=%d' % stream, 'VF_CHUNK_MAX=%d' % chunk, 'VF_MAXCOPY=%d' % (stream // m + 1)] + (['VF_SPLIT1'] if split else [])
+    defs = ['M=%d' % m, 'DIG=%d' % dig, 'MINBODY=%d' % minb, 'MAXBODY=%d' % maxb, 'STREAM_MAX=%d' % stream, 'VF_CHUNK_MAX=%d' % chunk, 'VF_MAXCOPY=%d' % (stream // m + 1)] + (['VF_SPLIT2'] if split == 2 else ['VF_SPLIT1'] if split else [])
     ctx.add(Harness(name, VERIF + '/harness/C15_valid.c', defines=defs, unwind=4,
-                    unwindset=us(stream + 2, dig + 2, 3 if split else chunk + 2, chunk + 1, 14 + dig + 2, stream // m + 3),
+                    unwindset=us(stream + 2, dig + 2, 4 if split == 2 else 3 if split else chunk + 2, chunk + 1, 14 + dig + 2, stream // m + 3),
                     timeout=timeout, mem_gb=16, functions=FUN, stubs=STUBS, tier=tier,
                     bounds='%d valid message(s), BodyLength %d..%d (%d digit(s)), body and the 7 trailer bytes symbolic; %s; %s' % (
-                        m, max(minb, 10 ** (dig - 1)), min(maxb, 10 ** dig - 1), dig, 'every sockRead request delivered in at most two chunks with an arbitrary split point' if split else 'every receiveBytes call returns an arbitrary 1..n bytes (all chunkings)', SCALE),
+                        m, max(minb, 10 ** (dig - 1)), min(maxb, 10 ** dig - 1), dig, 'every sockRead request delivered in at most three chunks (two arbitrary split points)' if split == 2 else 'every sockRead request delivered in at most two chunks with an arbitrary split point' if split else 'every receiveBytes call returns an arbitrary 1..n bytes (all chunkings)', SCALE),
                     desc='valid stream is returned byte-identical, in order, consuming exactly its bytes'))
 
 def corrupt(ctx, name, L, fixp, mode, tier, timeout, kfdefs, lenc=None, tpl=0, backend='default', fldw=10):
@@ -40,7 +42,7 @@ def corrupt(ctx, name, L, fixp, mode, tier, timeout, kfdefs, lenc=None, tpl=0, b
     chunk = max(13, L - 13)
     defs = kfdefs + ['L=%d' % L, 'FIXP=%d' % fixp, 'TPL=%d' % tpl, 'FLDW=%d' % fldw, 'STREAM_MAX=%d' % L, 'VF_CHUNK_MAX=%d' % chunk, 'VF_MAXCOPY=%d' % max(L + 1, 26)] + {'all': [], 'split': ['VF_SPLIT1'], 'whole': ['VF_WHOLE']}[mode] + (['LENC=%d' % lenc] if lenc else [])
     shape = {0: 'arbitrary bytes', 1: 'bytes of the shape "8=FIX.4.2|9=" <1 arbitrary byte> SOH <arbitrary bytes>', 2: 'bytes of the shape "8=FIX.4.2|9=" <%d arbitrary bytes> SOH <arbitrary bytes> (BodyLength text of every digit count 0..%d, every digit symbolic: all values incl. 2^32-20..2^32-1 and those wrapping unsigned)' % (fldw, fldw),
-             3: 'bytes of the shape <13 arbitrary bytes> "1"* SOH', 4: 'bytes of the shape "8=FIX.4.2|9" <3 arbitrary bytes> SOH <arbitrary bytes>'}[tpl]
+             3: 'bytes of the shape <13 arbitrary bytes> "1"* SOH', 4: 'bytes of the shape "8=FIX.4.2|9" <3 arbitrary bytes> SOH <arbitrary bytes>', 5: 'bytes of the shape "8=FIX.4.2" <1 arbitrary byte> SOH "9=" <arbitrary bytes>'}[tpl]
     ctx.add(Harness(name, VERIF + '/harness/C15_corrupt.c', defines=defs, unwind=4, backend=backend,
                     unwindset=us(L + 2, L - 13 + 2, {'all': chunk + 2, 'split': 4, 'whole': 3}[mode], chunk + 1, L + 2, max(L + 1, 26) + 2, strlen=L + 2),
                     timeout=timeout, mem_gb=16, functions=FUN, stubs=STUBS, tier=tier,
@@ -56,9 +58,12 @@ def run(ctx):
     corrupt(ctx, 'C15_len_L24_split', 24, 12, 'split', q, 600, defs)                       # BodyLength field and body arbitrary, any length up to 24
     corrupt(ctx, 'C15_any_L16_split', 16, 0, 'split', q, 600, defs)                        # whole preamble arbitrary
     corrupt(ctx, 'C15_tag2_L27_whole', 27, 11, 'whole', q, 600, defs, lenc=27, tpl=4)       # second field's tag arbitrary
+    corrupt(ctx, 'C15_bs_L26_whole', 26, 9, 'whole', q, 600, defs, lenc=26, tpl=5)          # BeginString value one byte longer (embedded NUL)
     corrupt(ctx, 'C15_len1_L32_whole', 32, 12, 'whole', q, 600, defs, lenc=32, tpl=1)      # one-byte BodyLength field (non-numeric lengths)
     corrupt(ctx, 'C15_len10_L36_whole', 36, 12, 'whole', q, 600, defs, lenc=36, tpl=2)     # ten-byte BodyLength field (wrap-around of unsigned)
     corrupt(ctx, 'C15_longfield_L35_whole', 35, 0, 'whole', q, 600, defs, lenc=35, tpl=3)  # long first field / digits-only garbage (tag[32], val[FLD])
+    valid(ctx, 'C15_valid_m1_d1_split2', 1, 1, 1, 9, 2, t, 3000)
+    valid(ctx, 'C15_valid_m1_d2_split2', 1, 2, 10, 12, 2, t, 3000)
     valid(ctx, 'C15_valid_m1_d1_all', 1, 1, 1, 9, False, t, 3000)
     valid(ctx, 'C15_valid_m2_d1_split', 2, 1, 1, 9, True, t, 3000)
     valid(ctx, 'C15_valid_m1_d2_all', 1, 2, 10, 12, False, t, 3000)
